@@ -277,7 +277,20 @@ def run(ctx):
   shape.check_span_pairing(ctx, ix.func("ttconv.vtt.reader:_TextCueParser._handle_starttag"), ix.func("ttconv.vtt.reader:_TextCueParser._handle_endtag"))
   gr = ix.func("ttconv.vtt.reader:_get_or_make_region")
   shape.check_region_key(ctx, gr)
-  for var in ("writing_mode", "text_align"):
+  # every local that ends up in a style of the region (looked up or set) must have its final value before another
+  # setting block consults it: `position` anchors with the extent that `size` and `line` decide, `align` reads the writing mode, ...
+  result_vars = set()
+  for c in own_nodes(gr.node):
+    if isinstance(c, ast.Call) and isinstance(c.func, ast.Attribute) and c.func.attr == "set_style" and len(c.args) == 2:
+      result_vars |= {n.id for n in ast.walk(c.args[1]) if isinstance(n, ast.Name) and isinstance(n.ctx, ast.Load)}
+  from ..rules import match as _m
+  ldefs = _m.local_defs(gr.node)
+  for _ in range(3):      # through locals that only package other locals (extent = ExtentType(height=..extent_height.., ...))
+    result_vars |= {n.id for v in list(result_vars) if len(ldefs.get(v, [])) == 1 for n in ast.walk(ldefs[v][0]) if isinstance(n, ast.Name) and isinstance(n.ctx, ast.Load)}
+  top_stores = {n.id for st in gr.node.body for n in ast.walk(st) if isinstance(n, ast.Name) and isinstance(n.ctx, ast.Store)}
+  result_vars = sorted(v for v in result_vars & top_stores if v not in gr.params)
+  ctx.floor("ORD-settings", "locals that reach a region style", len(result_vars), 7)
+  for var in result_vars:
     shape.check_final_before_use(ctx, gr, var)
   nt2 = shape.check_state_buffers(ctx, ix.func("ttconv.vtt.tokenizer:CueTextTokenizer"), buffers=("buffer",),
                                  continuation={("start_tag_annot", "annot_cref"): "buffer", ("annot_cref", "start_tag_annot"): "buffer"})
@@ -294,4 +307,5 @@ def run(ctx):
   check_percentages(ctx)
   nfl = shape.check_state_flush(ctx, ix.func("ttconv.vtt.tokenizer:CueTextTokenizer"), continuation={("start_tag_annot", "annot_cref"), ("annot_cref", "start_tag_annot")})
   ctx.note(f"TYPESTATE-flush: {nfl} leaving branches of buffer-filling states")
+  common.check_item_handlers(ctx, ["ttconv.vtt.reader", "ttconv.vtt.tokenizer", "ttconv.utils"])
   common.check_history_independence(ctx, ["ttconv.vtt.reader", "ttconv.vtt.tokenizer", "ttconv.utils"])
